@@ -400,3 +400,22 @@ func (p *Prog) FuncDecl(rel, name string) (*ast.FuncDecl, *packages.Package) {
 	}
 	return nil, pk
 }
+
+// callersOf: the module functions with a static call of fn.
+func (p *Prog) callersOf(fn *ssa.Function) []*ssa.Function {
+	var out []*ssa.Function
+	for _, caller := range p.ModuleFuncs() {
+		found := false
+		for _, b := range caller.Blocks {
+			for _, ins := range b.Instrs {
+				if ci, ok := ins.(ssa.CallInstruction); ok && ci.Common().StaticCallee() == fn {
+					found = true
+				}
+			}
+		}
+		if found {
+			out = append(out, caller)
+		}
+	}
+	return out
+}
